@@ -1,6 +1,7 @@
 import SpoxModel.Lemmas.Tensor
 import SpoxModel.Lemmas.Attr
 import SpoxModel.Lemmas.Float
+import SpoxModel.Model.Embed
 /-!
 # C10 — constants and attributes are embedded exactly and captured at the call
 
@@ -506,6 +507,157 @@ theorem attr_tensor_exact (q : Bool) (name : String) (a : Arr) (ha : a.WF) (sv :
   · simp only [Except.ok.injEq, Prod.mk.injEq] at h
     obtain ⟨_, rfl⟩ := h
     exact ⟨t, rfl, hback, const_type_exact q a "" t ht⟩
+
+
+/-! ## Part 4 — the embedding path: `const`, `constant`, `initializer`, argument defaults -/
+open Embed
+
+/-- `AttrTensor(arr)` on any array succeeds and embeds exactly `from_array arr`: the tensor decodes
+    back to the array, and carries the array's element type and shape. -/
+theorem embedArr_spec (q : Bool) (r : Route) (prop : Bool) (a : Arr) (ha : a.WF) :
+    ∃ t, embedArr q r prop a = .ok ⟨r, t, (a.dtype, a.shape), if prop then some a else none⟩ ∧
+      fromArray q a "" = some t ∧ toArray q t = some (canon q a) ∧
+      typeOfProto t = some (a.dtype, a.shape) := by
+  obtain ⟨t, ht, hback⟩ := roundtrip q a "" ha
+  refine ⟨t, ?_, ht, hback, const_type_exact q a "" t ht⟩
+  simp [embedArr, construct, scalarProto, ht, validated, kindOf, TENSOR]
+
+/-- **const_spec.** Whatever the user hands to `const` — a bare Python scalar, a numpy scalar, an
+    array, a flat or nested list — if numpy makes the array `a` of it, the call yields a `Constant`
+    node whose `value` tensor decodes to `a` (bit-exact up to `canon`), the Var has type
+    `Tensor(a.dtype, a.shape)` and the propagated value is `a`. -/
+theorem const_spec (q : Bool) (v : Value) (a : Arr) (h : numpyArray v = some (.ok a)) (ha : a.WF) :
+    ∃ e, Embed.const q v = some (.ok e) ∧ e.route = .constantNode ∧ e.varType = (a.dtype, a.shape) ∧
+      e.propagated = some a ∧ toArray q e.tensor = some (canon q a) ∧
+      typeOfProto e.tensor = some e.varType := by
+  obtain ⟨t, he, _, hback, hty⟩ := embedArr_spec q .constantNode true a ha
+  refine ⟨⟨.constantNode, t, (a.dtype, a.shape), some a⟩, ?_, rfl, rfl, rfl, hback, hty⟩
+  simp only [Embed.const, h, Option.map_some]
+  exact congrArg some he
+
+/-- The same for `spox._future.initializer(value)`, which *is* `spox._graph.initializer(np.array(value))`:
+    the tensor becomes a graph initializer instead of a node attribute, nothing else differs. -/
+theorem future_is_graph_initializer (q : Bool) (v : Value) :
+    futureInitializer q v = (numpyArray v).map (· >>= graphInitializer q) := rfl
+
+theorem initializer_spec (q : Bool) (v : Value) (a : Arr) (h : numpyArray v = some (.ok a)) (ha : a.WF) :
+    ∃ e, futureInitializer q v = some (.ok e) ∧ graphInitializer q a = .ok e ∧
+      e.route = .initializer ∧ e.varType = (a.dtype, a.shape) ∧ e.propagated = some a ∧
+      toArray q e.tensor = some (canon q a) ∧ typeOfProto e.tensor = some e.varType := by
+  obtain ⟨t, he, _, hback, hty⟩ := embedArr_spec q .initializer true a ha
+  refine ⟨⟨.initializer, t, (a.dtype, a.shape), some a⟩, ?_, he, rfl, rfl, rfl, hback, hty⟩
+  simp only [futureInitializer, h, Option.map_some]
+  exact congrArg some he
+
+/-- An argument default embeds the same tensor as an initializer (and, being overridable, propagates
+    no value). -/
+theorem argDefault_spec (q : Bool) (a : Arr) (ha : a.WF) :
+    ∃ e, argDefault q a = .ok e ∧ e.route = .initializer ∧ e.varType = (a.dtype, a.shape) ∧
+      e.propagated = none ∧ toArray q e.tensor = some (canon q a) ∧
+      (∃ e', graphInitializer q a = .ok e' ∧ e'.tensor = e.tensor) := by
+  obtain ⟨t, he, _, hback, _⟩ := embedArr_spec q .initializer false a ha
+  obtain ⟨t', he', ht', _, _⟩ := embedArr_spec q .initializer true a ha
+  have : t' = t := by
+    obtain ⟨t2, _, ht2, _, _⟩ := embedArr_spec q .initializer false a ha
+    simp_all
+  exact ⟨_, he, rfl, rfl, rfl, hback, _, he', by simp [this]⟩
+
+/-- What numpy refuses, the call refuses with the same class (object dtype → TypeError, ragged
+    nesting → ValueError). -/
+theorem const_error (q : Bool) (v : Value) (e : Err) (h : numpyArray v = some (.error e)) :
+    Embed.const q v = some (.error e) ∧ futureInitializer q v = some (.error e) := by
+  simp [Embed.const, futureInitializer, h, bind, Except.bind]
+
+/-! The element type a bare Python value gets. -/
+theorem const_of_bool (b : Bool) :
+    numpyArray (.scalar (.bool b)) = some (.ok ⟨.bool, [], [if b then 1 else 0], []⟩) := by
+  cases b <;> rfl
+
+theorem const_of_float (b : Nat) :
+    numpyArray (.scalar (.float b)) = some (.ok ⟨.float64, [], [b], []⟩) := rfl
+
+theorem const_of_str (cs : List Char) :
+    numpyArray (.scalar (.str cs)) = some (.ok ⟨.str, [], [], [stripNul cs]⟩) := rfl
+
+theorem const_of_npscalar (d : DType) (ws : List Nat) (cs : List Char) :
+    ∃ a, numpyArray (.npScalar d ws cs) = some (.ok a) ∧ a.dtype = d ∧ a.shape = [] ∧ a.words = ws :=
+  ⟨_, rfl, rfl, rfl, rfl⟩
+
+theorem const_of_array (a : Arr) : numpyArray (.array a) = some (.ok a) := rfl
+
+/-- A bare Python int becomes int64 when it fits, … -/
+theorem const_of_int64 (n : Int) (h1 : -(2 ^ 63 : Int) ≤ n) (h2 : n < (2 ^ 63 : Int)) :
+    numpyArray (.scalar (.int n)) = some (.ok ⟨.int64, [], [ofInt 64 n], []⟩) ∧
+      toSigned 64 (ofInt 64 n) = n := by
+  constructor
+  · have c1 : ¬ (n < -9223372036854775808 ∨ 18446744073709551616 ≤ n) := by omega
+    have c2 : ¬ (n < 9223372036854775808 ∧ 9223372036854775808 ≤ n) := by omega
+    have c3 : ¬ (9223372036854775808 ≤ n) := by omega
+    simp [numpyArray, arrayOfScalars, inferDType, Scalar.kind, Scalar.asInt, payload, c1, c2, c3]
+  · unfold toSigned ofInt; split <;> omega
+
+/-- … uint64 from 2^63 up to 2^64 − 1 (the value itself is the payload), … -/
+theorem const_of_uint64 (n : Int) (h1 : (2 ^ 63 : Int) ≤ n) (h2 : n < (2 ^ 64 : Int)) :
+    numpyArray (.scalar (.int n)) = some (.ok ⟨.uint64, [], [n.toNat], []⟩) := by
+  have c1 : ¬ (n < -9223372036854775808 ∨ 18446744073709551616 ≤ n) := by omega
+  have c2 : ¬ (n < 9223372036854775808 ∧ 9223372036854775808 ≤ n) := by omega
+  have c3 : (9223372036854775808 : Int) ≤ n := by omega
+  have c4 : ¬ (n < 9223372036854775808) := by omega
+  have e : ofInt 64 n = n.toNat := by unfold ofInt; omega
+  simp [numpyArray, arrayOfScalars, inferDType, Scalar.kind, Scalar.asInt, payload, c1, c2, c3, c4, e]
+
+/-- … and is refused (numpy makes an `object` array, `AttrTensor` raises TypeError) beyond. -/
+theorem const_of_bigint (n : Int) (h : n < -(2 ^ 63 : Int) ∨ (2 ^ 64 : Int) ≤ n) :
+    numpyArray (.scalar (.int n)) = some (.error .typeError) := by
+  have c1 : (n < -9223372036854775808 ∨ 18446744073709551616 ≤ n) := by omega
+  simp [numpyArray, arrayOfScalars, inferDType, Scalar.kind, Scalar.asInt, c1]
+
+/-- Lists: a float anywhere makes float64; ints below and from 2^63 together make float64 too. -/
+example : (numpyArray (.list [.int 1, .float 0x4004000000000000])).map (·.toOption.map (·.dtype)) = some (some .float64) := by decide
+example : (numpyArray (.list [.int 0, .int (2 ^ 63)])).map (·.toOption.map (·.dtype)) = some (some .float64) := by decide +kernel
+example : (numpyArray (.list [.bool true, .int (2 ^ 63)])).map (·.toOption.map (·.dtype)) = some (some .uint64) := by decide
+example : (numpyArray (.list [])).map (·.toOption.map (fun a => (a.dtype, a.shape))) = some (some (.float64, [0])) := by decide
+example : numpyArray (.nested [[.int 1], [.int 2, .int 3]]) = some (.error .valueError) := by rfl
+example : numpyArray (.list [.int 1, .str ['a']]) = none := by rfl
+
+/-- **constant_spec.** `constant(<key>=v)` wraps `v` in the attribute class of the key: when it
+    returns, the attribute has the key's name and the ONNX type of that class … -/
+theorem constant_spec (q : Bool) (k : ConstKey) (v : PyVal) (p : AProto) (pr : Option Arr)
+    (h : constant q k v = .ok (p, pr)) : p.name = k.name ∧ p.type = specKind k.cls := by
+  unfold constant at h
+  cases hc : construct q k.cls k.name v with
+  | error e => simp [hc] at h
+  | ok r =>
+    obtain ⟨sv, p'⟩ := r
+    simp only [hc, Except.ok.injEq, Prod.mk.injEq] at h
+    obtain ⟨rfl, _⟩ := h
+    exact attr_kind_exact q k.cls k.name v sv p' hc
+
+/-- … and the propagated value (hence the Var's type) is: `value_int` → int64 scalar of that int,
+    `value_float` → float32 scalar of the rounded value, `value_ints` / `value_floats` → 1-d of the
+    items in order. -/
+theorem constant_propagated (q : Bool) (k : ConstKey) (v : PyVal) (p : AProto) (pr : Option Arr)
+    (h : constant q k v = .ok (p, pr)) :
+    (k = .value_int → pr = some ⟨.int64, [], [ofInt 64 p.i], []⟩) ∧
+    (k = .value_float → pr = some ⟨.float32, [], [p.f], []⟩) ∧
+    (k = .value_ints → pr = some ⟨.int64, [p.ints.length], p.ints.map (ofInt 64), []⟩) ∧
+    (k = .value_floats → pr = some ⟨.float32, [p.floats.length], p.floats, []⟩) := by
+  unfold constant at h
+  cases hc : construct q k.cls k.name v with
+  | error e => simp [hc] at h
+  | ok r =>
+    obtain ⟨sv, p'⟩ := r
+    simp only [hc, Except.ok.injEq, Prod.mk.injEq] at h
+    obtain ⟨rfl, rfl⟩ := h
+    refine ⟨?_, ?_, ?_, ?_⟩ <;> (intro hk; subst hk; cases sv <;> rfl)
+
+/-- `constant(value=v)` is the same embedding as `const(v)` on an array. -/
+theorem constant_value_spec (q : Bool) (a : Arr) (ha : a.WF) :
+    ∃ p t, constant q .value (.atom (.ndarray a)) = .ok (p, some a) ∧ p.t = some t ∧
+      toArray q t = some (canon q a) ∧ typeOfProto t = some (a.dtype, a.shape) := by
+  obtain ⟨t, ht, hback⟩ := roundtrip q a "" ha
+  refine ⟨{ name := "value", type := TENSOR, t := some t }, t, ?_, rfl, hback, const_type_exact q a "" t ht⟩
+  simp [constant, ConstKey.cls, ConstKey.name, construct, scalarProto, ht, validated, kindOf, TENSOR, propagate]
 
 /-! ## Part 3 — captured at the call -/
 open Capture
